@@ -76,7 +76,12 @@ type svc struct {
 
 // newSvc builds one node with all three services; the first `fund` user wallets get 100 units each.
 func newSvc(seed string, users, fund int, realFlash bool, challengeSeconds uint64) (*svc, error) {
-	w, err := sim.NewWorld(sim.Config{Nodes: 1, Users: users, GenesisC: 1_000_000, Seed: seed})
+	return newSvcT(seed, users, fund, realFlash, challengeSeconds, 0)
+}
+
+// newSvcT is newSvc with the node's Config.Truncate set (0 = the default mark that no test reaches).
+func newSvcT(seed string, users, fund int, realFlash bool, challengeSeconds uint64, truncate uint64) (*svc, error) {
+	w, err := sim.NewWorld(sim.Config{Nodes: 1, Users: users, GenesisC: 1_000_000, Seed: seed, Truncate: truncate})
 	if err != nil {
 		return nil, err
 	}
